@@ -111,7 +111,7 @@ def ensure_registered():
                 if not ready:
                     continue
                 if not s.multi or mode <= 1:
-                    ops = ready[:1]
+                    ops = [ready[_next(len(ready))]]      # any operator the package itself reports as ready
                 else:
                     chosen = []
                     have = set()
